@@ -400,13 +400,14 @@ pub fn foreign_opts(rng: &mut Rng, k: usize, quick: bool) -> ForeignOpts {
         5 => rng.range(40, 400) as usize,
         _ => rng.range(400, if quick { 1500 } else { 6000 }) as usize,
     };
+    // depth and codec cycle jointly through all 16 combinations; the layout switches are independent
     ForeignOpts {
         n,
-        depth: (k / 3 % 4) as u32,
-        icomp: 1 + (k % 4) as u8,
-        permute: k % 2 == 1,
-        unordered: k % 5 >= 3,
-        empty_meta: k % 6 == 0,
-        merge_runs: k % 8 != 7,
+        depth: (k % 4) as u32,
+        icomp: 1 + (k / 4 % 4) as u8,
+        permute: rng.chance(1, 2),
+        unordered: rng.chance(2, 5),
+        empty_meta: rng.chance(1, 6),
+        merge_runs: !rng.chance(1, 8),
     }
 }
